@@ -92,6 +92,12 @@ def m_isinstance(interp, args, kwargs):
     if isinstance(obj, SList):
         import collections.abc as cabc
         return any(t in (list, object, cabc.Sequence, cabc.Iterable) for t in tps)
+    if isinstance(obj, SMap):
+        import collections.abc as cabc
+        return any(t in (dict, object, cabc.Mapping, cabc.MutableMapping, cabc.Iterable) for t in tps)
+    if isinstance(obj, SMapProxy):
+        import collections.abc as cabc
+        return any(t in (types.MappingProxyType, object, cabc.Mapping, cabc.Iterable) for t in tps)
     from .interp import Closure, BoundMethod
     if isinstance(obj, (Closure, BoundMethod)):
         return any(t in (object, types.FunctionType) for t in tps)
@@ -266,8 +272,16 @@ def m_list(interp, args, kwargs):
     if isinstance(src, SLazyMap):
         # interpreted from a Python model; its loop invariant belongs to the call site (spec 'map#k')
         from .pymodels import functools_model
-        src.frame.lib_site = src.site
-        return interp.call(functools_model.map_list, [src.f, src.xs], {})
+        saved = src.frame.model_site
+        src.frame.model_site = src.site
+        try:
+            return interp.call(functools_model.map_list, [src.f, src.xs], {})
+        finally:
+            src.frame.model_site = saved
+    if isinstance(src, SIter):
+        # list(iterator over a symbolic sequence): its remaining items (the iterator is consumed)
+        from . import seqs
+        return seqs.as_slist(interp, src)
     return list(interp.iterate(src))
 
 
@@ -291,6 +305,8 @@ def m_dict(interp, args, kwargs):
         src = args[0]
         if isinstance(src, (SOpt, SChoice)):
             src = interp.resolve(src)
+        if isinstance(src, SMapProxy):
+            src = src.m
         if isinstance(src, SMap):
             if kwargs:
                 raise Unsupported('dict(SMap, **kw)')
@@ -309,6 +325,23 @@ def m_dict(interp, args, kwargs):
                 d[k] = v
     d.update(kwargs)
     return d
+
+
+import copy as _copy
+
+
+@model(_copy.copy)
+def m_copy(interp, args, kwargs):
+    (x,) = args
+    if isinstance(x, (SOpt, SChoice)):
+        x = interp.resolve(x)
+    if isinstance(x, SMap):
+        return x.copy(interp)
+    if isinstance(x, (SInt, SBool, SStr, SList)):
+        return x
+    if isinstance(x, (list, dict, set)):
+        return _copy.copy(x)
+    raise Unsupported('copy.copy of %s' % type(x).__name__)
 
 
 @model(builtins.set)
@@ -636,6 +669,31 @@ def _chain(interp, parts):
     return itertools.chain(*[interp.iterate(p) for p in parts])
 
 
+import collections  # noqa: E402
+
+
+@model(collections.deque)
+def m_deque(interp, args, kwargs):
+    """collections.deque without maxlen: a mutable symbolic list that also has popleft / appendleft"""
+    if kwargs or len(args) > 1:
+        raise Unsupported('deque with maxlen')
+    from .mlist import MList, from_concrete
+    from . import seqs
+    if args:
+        src = args[0]
+        if isinstance(src, (SOpt, SChoice)):
+            src = interp.resolve(src)
+        if isinstance(src, (SList, SIter, SEnumerate)):
+            m = MList(interp, interp.st.fresh_name('deque'), None)
+            m.extend(interp, seqs.as_slist(interp, src))
+        else:
+            m = from_concrete(interp, list(interp.iterate(src)), 'deque')
+    else:
+        m = MList(interp, interp.st.fresh_name('deque'), None)
+    m.is_deque = True
+    return m
+
+
 @model(itertools.chain)
 def m_chain(interp, args, kwargs):
     return _chain(interp, list(args))
@@ -868,15 +926,11 @@ def call_sym_method(interp, recv, name, args, kwargs):
     if isinstance(recv, SList):
         return slist_method(interp, recv, name, args, kwargs)
     if isinstance(recv, SMap):
-        if name in ('copy', 'get', 'pop'):
-            return getattr(recv, name)(interp, *args)
-        if name == '__contains__':
-            return recv.contains(interp, args[0])
-        if name == '__getitem__':
-            return recv.getitem(interp, args[0])
-        if name == '__setitem__':
-            return recv.setitem(interp, args[0], args[1])
-        raise Unsupported('method %s on a symbolic map' % name)
+        return smap_method(interp, recv, name, args, kwargs)
+    if isinstance(recv, SMapProxy):
+        if name not in _PROXY_READS:
+            raise _pyraise(AttributeError("'mappingproxy' object has no attribute %r" % name))
+        return smap_method(interp, recv.m, name, args, kwargs)
     if isinstance(recv, SInt):
         if name == 'bit_length':
             raise Unsupported('bit_length')
@@ -889,6 +943,10 @@ def sym_getitem(interp, obj, idx):
         return strings.getitem(interp, obj, idx)
     if isinstance(obj, SList):
         return slist_getitem(interp, obj, idx)
+    if isinstance(obj, SMap):
+        return obj.getitem(interp, idx)
+    if isinstance(obj, SMapProxy):
+        return obj.m.getitem(interp, idx)
     raise Unsupported('getitem on %r' % (obj,))
 
 
@@ -964,11 +1022,17 @@ def slist_comprehension(interp, xs, gens, i, child, emit):
 class SIter:
     """Iterator over an SList: (sequence, position) cell."""
 
-    def __init__(self, xs, pos):
+    def __init__(self, xs, pos, eager=False):
         self.xs = xs
         self.pos = pos      # int or z3 term
+        # eager: stands for a generator that is used through its contract -- all its items and effects at the
+        # call.  Equivalent to the lazy generator only if it is consumed completely, which is checked where it
+        # is consumed (loop without early exit, list()/deque()/sorted()..., never next()).
+        self.eager = eager
 
     def next(self, interp, default):
+        if self.eager:
+            raise Unsupported('next() on a generator that is used through its contract (items and effects at the call)')
         p = to_z3(self.pos) if not isinstance(self.pos, int) else z3.IntVal(self.pos)
         if interp.st.fork(wrap(p < self.xs.length)):
             v = slist_elem(interp, self.xs, p)
@@ -987,103 +1051,380 @@ class SEnumerate:
 
 class SMap:
     """Symbolic finite map (dict view): z3 arrays ``has: K -> Bool`` and ``val: K -> V``.
-    Keys are ints/strings, or opaque objects whose interface names the attribute that decides their
-    equality (``map_key = 'ident'``: the model of ``__eq__``/``__hash__``).  With ``val is None`` the
-    values are not tracked: a read gives an arbitrary value of shape ``vty``."""
 
-    def __init__(self, ksort, vsort, has, val, uid, vwrap=None, vty=None):
-        self.ksort = ksort
-        self.vsort = vsort
+    Canonical form: ``val[k]`` is the default of the value sort wherever ``has[k]`` is false, so that
+    equality of the two arrays is dict equality.  The canonical-form fact is instantiated at every
+    key an operation touches (`_touch`); all operations preserve it.
+
+    ``kty`` / ``vty`` are the shapes of keys / values (Str, Int, Bool; values may also be ``Iface`` of a
+    by-id interface: the array then holds the object ids).
+
+    Keys may also be opaque objects whose interface names the attribute that decides their equality
+    (``map_key = 'ident'``: the model of ``__eq__`` / ``__hash__``).  With a value shape that has no scalar
+    sort (``Any_``, an interface that is not by-id, ``None``) the values are NOT tracked (``val is None``):
+    only the key set is symbolic, a read gives an arbitrary value of that shape."""
+
+    def __init__(self, kty, vty, has, val, uid):
+        self.kty = kty
+        self.vty = vty
         self.has = has
         self.val = val
         self.uid = uid
-        self.vty = vty
 
-    def key(self, interp, k):
-        if isinstance(k, (SOpt, SChoice)):
-            k = interp.resolve(k)
-        if isinstance(k, Opaque):
-            attr = getattr(k._pv_iface, 'map_key', None)
-            if attr is None:
-                raise Unsupported('opaque object used as a key of a symbolic map: its interface has no map_key')
-            k = interp.getattr(k, attr)
-        if not isinstance(k, (SInt, SStr, int, str)) or isinstance(k, bool):
-            raise Unsupported('key of a symbolic map: %r' % (k,))
-        return to_z3(k)
+    # ----- sorts / conversion
+    @property
+    def ksort(self):
+        return scalar_sort(self.kty)
 
-    def _read(self, interp, kt):
-        if self.val is not None:
-            return wrap(z3.Select(self.val, kt))
-        if self.vty is not None:
+    @property
+    def vsort(self):
+        return scalar_sort(self.vty)
+
+    @property
+    def untracked(self):
+        return self.val is None
+
+    def _fresh_value(self, interp):
+        from .api import Ty
+        if isinstance(self.vty, Ty):
             return self.vty.make(interp, self.uid + '[]')
         return OpaqueVal(interp.st.fresh_name(self.uid + '[]'))
 
+    @staticmethod
+    def _key_value(interp, k):
+        """the value that decides the equality of a key: the key itself, or the `map_key` attribute of an
+        opaque object"""
+        if isinstance(k, (SOpt, SChoice)):
+            k = interp.resolve(k)
+        if isinstance(k, Opaque) and getattr(k._pv_iface, 'map_key', None):
+            k = interp.getattr(k, k._pv_iface.map_key)
+        return k
+
+    def _key(self, interp, k):
+        k = self._key_value(interp, k)
+        try:
+            t = to_z3(k)
+        except TypeError:
+            raise Unsupported('symbolic map: key %r' % (k,))
+        if t.sort() != self.ksort:
+            raise Unsupported('symbolic map: key of sort %s in a map with %s keys' % (t.sort(), self.ksort))
+        return t
+
+    def _unwrap(self, interp, v):
+        if self.val is None:
+            return None
+        if isinstance(v, (SOpt, SChoice)):
+            v = interp.resolve(v)
+        t = term_of_value(v)
+        if t is None or t.sort() != self.vsort:
+            raise Unsupported('symbolic map: cannot store value %r' % (v,))
+        return t
+
+    def _wrap(self, interp, t):
+        if self.val is None:
+            return self._fresh_value(interp)
+        return value_of_term(interp, self.vty, t)
+
+    def _touch(self, interp, kt):
+        if self.val is None:
+            return
+        interp.st.assume(z3.Or(z3.Select(self.has, kt), z3.Select(self.val, kt) == default_term(self.vty)))
+
+    # ----- operations
     def copy(self, interp):
-        return SMap(self.ksort, self.vsort, self.has, self.val, interp.st.fresh_name(self.uid + '.copy'),
-                    vty=self.vty)
+        return SMap(self.kty, self.vty, self.has, self.val, interp.st.fresh_name(self.uid + '.copy'))
 
     def contains(self, interp, k):
-        return wrap(z3.Select(self.has, self.key(interp, k)))
-
-    __contains__ = None
+        k = self._key_value(interp, k)
+        try:
+            t = to_z3(k)
+        except TypeError:
+            return False
+        if t.sort() != self.ksort:
+            return False
+        return wrap(z3.Select(self.has, t))
 
     def getitem(self, interp, k):
-        kt = self.key(interp, k)
+        kt = self._key(interp, k)
         if not interp.st.fork(wrap(z3.Select(self.has, kt))):
-            raise _pyraise(KeyError(k if not isinstance(k, (Sym, Opaque)) else '<symbolic>'))
-        return self._read(interp, kt)
+            raise _pyraise(KeyError(k if not isinstance(k, Sym) else '<symbolic>'))
+        return self._wrap(interp, None if self.val is None else z3.Select(self.val, kt))
 
     def get(self, interp, k, default=None):
-        kt = self.key(interp, k)
-        if interp.st.fork(wrap(z3.Select(self.has, kt))):
-            return self._read(interp, kt)
+        kt = self._key(interp, k)
+        h = wrap(z3.Select(self.has, kt))
+        # merge `get(k, default)` into one term when the default is a scalar of the value sort
+        dt = term_of_value(default) if default is not None and self.val is not None else None
+        if dt is not None and dt.sort() == self.vsort and not isinstance(h, bool) and not is_object_shape(self.vty):
+            return wrap(z3.If(h.t, z3.Select(self.val, kt), dt))
+        if interp.st.fork(h):
+            return self._wrap(interp, None if self.val is None else z3.Select(self.val, kt))
         return default
 
     def setitem(self, interp, k, v):
-        kt = self.key(interp, k)
+        kt = self._key(interp, k)
+        vt = self._unwrap(interp, v)
         self.has = z3.Store(self.has, kt, z3.BoolVal(True))
         if self.val is not None:
-            self.val = z3.Store(self.val, kt, to_z3(v))
+            self.val = z3.Store(self.val, kt, vt)
+
+    def _remove(self, interp, kt):
+        self.has = z3.Store(self.has, kt, z3.BoolVal(False))
+        if self.val is not None:
+            self.val = z3.Store(self.val, kt, default_term(self.vty))
 
     def delitem(self, interp, k):
-        kt = self.key(interp, k)
+        kt = self._key(interp, k)
         if not interp.st.fork(wrap(z3.Select(self.has, kt))):
             raise _pyraise(KeyError('<symbolic>'))
-        self.has = z3.Store(self.has, kt, z3.BoolVal(False))
+        self._remove(interp, kt)
 
     def pop(self, interp, k, *default):
-        kt = self.key(interp, k)
+        kt = self._key(interp, k)
         if interp.st.fork(wrap(z3.Select(self.has, kt))):
-            v = self._read(interp, kt)
-            self.has = z3.Store(self.has, kt, z3.BoolVal(False))
+            v = self._wrap(interp, None if self.val is None else z3.Select(self.val, kt))
+            self._remove(interp, kt)
             return v
         if default:
             return default[0]
         raise _pyraise(KeyError('<symbolic>'))
 
+    def setdefault(self, interp, k, default=None):
+        kt = self._key(interp, k)
+        if interp.st.fork(wrap(z3.Select(self.has, kt))):
+            return self._wrap(interp, None if self.val is None else z3.Select(self.val, kt))
+        self.setitem(interp, k, default)
+        return default
 
-def smap_of_dict(interp, d, first_key, uid='dict'):
-    """A dict display / dict with a symbolic key: as a symbolic map with untracked values."""
-    def sort_of(k):
-        if isinstance(k, (SOpt, SChoice)):
-            k = interp.resolve(k)
-        if isinstance(k, Opaque):
-            attr = getattr(k._pv_iface, 'map_key', None)
-            if attr is None:
-                raise Unsupported('dict with an opaque key whose interface has no map_key')
-            k = interp.getattr(k, attr)
-        if isinstance(k, (SStr, str)):
-            return z3.StringSort()
-        if isinstance(k, (SInt, int)) and not isinstance(k, bool):
-            return z3.IntSort()
-        raise Unsupported('dict with symbolic key %r' % (k,))
+    def clear(self, interp):
+        self.has = z3.K(self.ksort, z3.BoolVal(False))
+        if self.val is not None:
+            self.val = z3.K(self.ksort, default_term(self.vty))
 
-    ks = sort_of(first_key)
-    name = interp.st.fresh_name(uid)
-    m = SMap(ks, None, z3.K(ks, z3.BoolVal(False)), None, name)
-    for k, v in d.items():
-        m.setitem(interp, k, v)
+    def update(self, interp, other):
+        if isinstance(other, (SOpt, SChoice)):
+            other = interp.resolve(other)
+        if isinstance(other, SMap):
+            if self.val is None or other.val is None:
+                raise Unsupported('symbolic map: update of / with a map whose values are not tracked')
+            if other.ksort != self.ksort or other.vsort != self.vsort:
+                raise Unsupported('symbolic map: update with a map of other sorts')
+            k = z3.Const(interp.st.fresh_name('k!upd'), self.ksort)
+            oh = z3.Select(other.has, k)
+            self.has, self.val = (z3.Lambda([k], z3.Or(z3.Select(self.has, k), oh)),
+                                  z3.Lambda([k], z3.If(oh, z3.Select(other.val, k), z3.Select(self.val, k))))
+            return
+        if isinstance(other, dict) or type(other).__name__ == 'mappingproxy':
+            for k2, v2 in other.items():
+                self.setitem(interp, k2, v2)
+            return
+        for item in interp.iterate(other):
+            k2, v2 = list(interp.iterate(item))
+            self.setitem(interp, k2, v2)
+
+    def eq(self, interp, other):
+        if other is self:
+            return True
+        if self.val is None or (isinstance(other, SMap) and other.val is None):
+            raise Unsupported('symbolic map: == on a map whose values are not tracked')
+        if isinstance(other, SMap):
+            if other.ksort != self.ksort or other.vsort != self.vsort:
+                raise Unsupported('symbolic map: == between maps of different sorts')
+            return wrap(z3.And(self.has == other.has, self.val == other.val))
+        if isinstance(other, dict):
+            m = SMap(self.kty, self.vty, z3.K(self.ksort, z3.BoolVal(False)),
+                     z3.K(self.ksort, default_term(self.vty)), 'lit')
+            m.update(interp, other)
+            return self.eq(interp, m)
+        return False
+
+    def havoc(self, interp, tag):
+        base = interp.st.fresh_name('%s@%s' % (self.uid, tag))
+        self.has = z3.Const(base + '.has', z3.ArraySort(self.ksort, z3.BoolSort()))
+        if self.val is not None:
+            self.val = z3.Const(base + '.val', z3.ArraySort(self.ksort, self.vsort))
+
+    def terms(self):
+        return [self.has, self.val] if self.val is not None else [self.has]
+
+
+def has_scalar_sort(ty):
+    try:
+        scalar_sort(ty)
+        return True
+    except Unsupported:
+        return False
+
+
+def new_smap(interp, name, kty, vty):
+    uid = interp.st.fresh_name(name)
+    ks = scalar_sort(kty)
+    has = z3.Const(uid + '.has', z3.ArraySort(ks, z3.BoolSort()))
+    if not has_scalar_sort(vty):
+        return SMap(kty, vty, has, None, uid)        # values not tracked
+    return SMap(kty, vty, has, z3.Const(uid + '.val', z3.ArraySort(ks, scalar_sort(vty))), uid)
+
+
+def smap_of_dict(interp, kty, vty, d, name='dict'):
+    m = SMap(kty, vty, z3.K(scalar_sort(kty), z3.BoolVal(False)),
+             z3.K(scalar_sort(kty), default_term(vty)) if has_scalar_sort(vty) else None,
+             interp.st.fresh_name(name))
+    m.update(interp, d)
     return m
+
+
+def is_object_shape(ty):
+    from .api import Iface
+    return isinstance(ty, Iface)
+
+
+def scalar_sort(ty):
+    from .api import _Int, _Bool, _Str, Iface
+    if isinstance(ty, _Int):
+        return z3.IntSort()
+    if isinstance(ty, _Bool):
+        return z3.BoolSort()
+    if isinstance(ty, _Str):
+        return z3.StringSort()
+    if isinstance(ty, Iface):
+        if not getattr(ty.resolved(), 'by_id', False):
+            raise Unsupported('objects in a symbolic map must be of a by-id interface')
+        return z3.IntSort()
+    raise Unsupported('no scalar sort for shape %r' % (ty,))
+
+
+def default_term(ty):
+    s = scalar_sort(ty)
+    if s == z3.IntSort():
+        return z3.IntVal(0)
+    if s == z3.BoolSort():
+        return z3.BoolVal(False)
+    return z3.StringVal('')
+
+
+def term_of_value(v):
+    """z3 term standing for a value that can be stored in a map / passed to a pure ghost function:
+    scalars, and objects of by-id interfaces (their id).  None if there is none."""
+    if isinstance(v, Opaque):
+        if getattr(v._pv_iface, 'by_id', False) and len(v._pv_index) == 1:
+            return v._pv_index[0]
+        return None
+    if isinstance(v, (SOpt, SChoice, SList)):
+        return None
+    try:
+        return to_z3(v)
+    except TypeError:
+        return None
+
+
+def value_of_term(interp, ty, t):
+    from .api import Iface, opaque_of_id
+    if isinstance(ty, Iface):
+        return opaque_of_id(interp, ty.resolved(), t)
+    return wrap(t)
+
+
+def smap_method(interp, m, name, args, kwargs):
+    if kwargs and name != 'update':
+        raise Unsupported('symbolic map: %s with keyword arguments' % name)
+    if name == 'get':
+        return m.get(interp, *args)
+    if name == 'pop':
+        return m.pop(interp, *args)
+    if name == 'copy':
+        return m.copy(interp)
+    if name == 'setdefault':
+        return m.setdefault(interp, *args)
+    if name == 'clear':
+        return m.clear(interp)
+    if name == 'update':
+        for a in args:
+            m.update(interp, a)
+        if kwargs:
+            m.update(interp, kwargs)
+        return None
+    if name == '__contains__':
+        return m.contains(interp, args[0])
+    if name == '__getitem__':
+        return m.getitem(interp, args[0])
+    if name == '__setitem__':
+        return m.setitem(interp, args[0], args[1])
+    if name == '__delitem__':
+        return m.delitem(interp, args[0])
+    if name == 'keys':
+        return SMapKeys(m)
+    raise Unsupported('method %s on symbolic map' % name)
+
+
+class SMapProxy:
+    """types.MappingProxyType over a symbolic map: a live read-only view."""
+
+    def __init__(self, m):
+        self.m = m
+
+
+@model(types.MappingProxyType)
+def m_mappingproxy(interp, args, kwargs):
+    (x,) = args
+    if isinstance(x, (SOpt, SChoice)):
+        x = interp.resolve(x)
+    if isinstance(x, SMap):
+        return SMapProxy(x)
+    if isinstance(x, SMapProxy):
+        return SMapProxy(x.m)
+    try:
+        return types.MappingProxyType(x)
+    except Exception as e:
+        raise _pyraise(e)
+
+
+_PROXY_READS = ('get', 'copy', '__contains__', '__getitem__', 'keys')
+
+
+class SMapKeys:
+    """`d.keys()` of a symbolic map: supports only membership."""
+
+    def __init__(self, m):
+        self.m = m
+
+
+def havoc_mutable(interp, v, tag, depth=3):
+    """Forget the contents of the mutable symbolic state reachable from ``v`` (in place)."""
+    if isinstance(v, SMap):
+        v.havoc(interp, tag)
+        return True
+    if isinstance(v, SOpt):
+        return havoc_mutable(interp, v.val, tag, depth)
+    if isinstance(v, SMapProxy):
+        return False        # a read-only view: the map is changed through the map itself
+    done = False
+    if depth > 0 and not isinstance(v, (Sym, Opaque, OpaqueVal, type, types.ModuleType, types.FunctionType)):
+        d = getattr(v, '__dict__', None)
+        if isinstance(d, dict):
+            for x in list(d.values()):
+                done = havoc_mutable(interp, x, tag, depth - 1) or done
+    return done
+
+
+def reachable_smaps(v, depth=3, path='', out=None, seen=None):
+    """(path, SMap) pairs reachable from ``v`` through instance attributes."""
+    out = [] if out is None else out
+    seen = set() if seen is None else seen
+    if id(v) in seen:
+        return out
+    seen.add(id(v))
+    if isinstance(v, SMap):
+        out.append((path, v))
+    elif isinstance(v, SOpt):
+        reachable_smaps(v.val, depth, path + '?', out, seen)
+    elif isinstance(v, SMapProxy):
+        reachable_smaps(v.m, depth, path + '.<view>', out, seen)
+    elif depth > 0 and not isinstance(v, (Sym, Opaque, OpaqueVal, type, types.ModuleType, types.FunctionType)):
+        d = getattr(v, '__dict__', None)
+        if isinstance(d, dict):
+            for k, x in d.items():
+                reachable_smaps(x, depth - 1, '%s.%s' % (path, k), out, seen)
+    return out
 
 
 # ============================================================================ quantifiers (spec level)
@@ -1098,6 +1439,34 @@ def _quant(interp, args, is_forall):
     j = st.fresh_int('j')
     lo_t, hi_t = to_z3(lo), to_z3(hi)
     rng = z3.And(lo_t <= j, j < hi_t)
+    return _quant_over(interp, j, SInt(j), rng, pred, is_forall)
+
+
+def q_forall_keys(interp, args, kwargs):
+    """forall_keys(d, pred): pred(k) holds for every key k of the symbolic map d."""
+    m, pred = args
+    if isinstance(m, (SOpt, SChoice)):
+        m = interp.resolve(m)
+    if isinstance(m, SMapProxy):
+        m = m.m
+    if not isinstance(m, SMap):
+        for k in list(interp.iterate(m)):
+            if not interp.branch(interp.call(pred, [k], {})):
+                return False
+        return True
+    st = interp.st
+    if m.ksort == z3.StringSort():
+        k = st.fresh_str('k')
+    elif m.ksort == z3.IntSort():
+        k = st.fresh_int('k')
+    else:
+        raise Unsupported('forall_keys over keys of sort %s' % m.ksort)
+    return _quant_over(interp, k, wrap(k), z3.Select(m.has, k), pred, True)
+
+
+def _quant_over(interp, j, j_value, rng, pred, is_forall):
+    from .path import QFrame
+    st = interp.st
     st.no_fork += 1
     n_pc = len(st.pc)
     n_fresh = len(st.fresh_log)
@@ -1120,11 +1489,11 @@ def _quant(interp, args, is_forall):
                         # exception propagates as before
                         from .interp import PyRaise
                         try:
-                            v = interp.truth(interp.call(pred, [SInt(j)], {}))
+                            v = interp.truth(interp.call(pred, [j_value], {}))
                         except PyRaise:
                             v = False
                     else:
-                        v = interp.truth(interp.call(pred, [SInt(j)], {}))
+                        v = interp.truth(interp.call(pred, [j_value], {}))
             finally:
                 del st.scopes[n_sc:]
                 st.qframes.pop()
@@ -1152,7 +1521,7 @@ def _quant(interp, args, is_forall):
     created = [c for c in st.fresh_log[n_fresh:] if not c.eq(j)]
     subst = []
     for c in created:
-        f = z3.Function(c.decl().name() + '@', z3.IntSort(), c.sort())
+        f = z3.Function(c.decl().name() + '@', j.sort(), c.sort())
         subst.append((c, f(j)))
     bt = to_z3(body)
     if subst:
@@ -1224,7 +1593,7 @@ def _prefix_fun(interp, args, is_count):
         return acc
     if not isinstance(f, types.FunctionType) or f.__closure__:
         raise Unsupported('sum_prefix/count_prefix need a module-level function (no lambda/closure)')
-    base, idx = xs.key if xs.key is not None else (xs.uid, ())
+    base, idx = xs.ident if xs.ident is not None else (xs.uid, ())
     name = '%s<%s|%s.%s>' % ('count' if is_count else 'sum', base, f.__module__, f.__qualname__)
     idx = list(idx)
     for e in extra:      # the prefix function also depends on the extra arguments
@@ -1292,8 +1661,193 @@ def q_keys_subset(interp, args, kwargs):
     return wrap(z3.ForAll([y], z3.Implies(z3.Select(a.has, y), z3.Select(b.has, y))))
 
 
+# ============================================================================ prefix folds (ghost history functions)
+
+def _fold_sig(v):
+    """(signature string, shape) of a fold state: scalars, symbolic maps, by-id objects, tuples of these."""
+    if isinstance(v, SMap):
+        return 'map(%s|%s)' % (z3.simplify(v.has).sexpr(), z3.simplify(v.val).sexpr()), ('map', v.kty, v.vty)
+    if isinstance(v, tuple):
+        parts = [_fold_sig(x) for x in v]
+        return '(%s)' % ','.join(p[0] for p in parts), ('tuple', [p[1] for p in parts])
+    if isinstance(v, Opaque):
+        t = term_of_value(v)
+        if t is None:
+            raise Unsupported('prefix_fold: state holds an object without id')
+        return 'obj(%s)' % z3.simplify(t).sexpr(), ('obj', v._pv_iface)
+    t = term_of_value(v)
+    if t is None:
+        raise Unsupported('prefix_fold: state of unsupported shape %r' % (v,))
+    return z3.simplify(t).sexpr(), ('scalar', t.sort())
+
+
+def _fold_value(interp, name, shape, t):
+    """The value of the fold function ``name`` at index term ``t``."""
+    kind = shape[0]
+    if kind == 'scalar':
+        return wrap(z3.Function(name, z3.IntSort(), shape[1])(t))
+    if kind == 'obj':
+        from .api import opaque_of_id
+        return opaque_of_id(interp, shape[1], z3.Function(name, z3.IntSort(), z3.IntSort())(t))
+    if kind == 'map':
+        ks, vs = scalar_sort(shape[1]), scalar_sort(shape[2])
+        has = z3.Function(name + '.has', z3.IntSort(), z3.ArraySort(ks, z3.BoolSort()))(t)
+        val = z3.Function(name + '.val', z3.IntSort(), z3.ArraySort(ks, vs))(t)
+        return SMap(shape[1], shape[2], has, val, '%s(%s)' % (name, z3.simplify(t).sexpr()))
+    if kind == 'tuple':
+        return tuple(_fold_value(interp, '%s.%d' % (name, i), sh, t) for i, sh in enumerate(shape[1]))
+    raise AssertionError(kind)
+
+
+def _fold_equal(interp, a, b):
+    if isinstance(a, tuple):
+        if not isinstance(b, tuple) or len(a) != len(b):
+            raise Unsupported('prefix_fold: the step function changes the shape of the state')
+        ts = [to_z3(_fold_equal(interp, x, y)) for x, y in zip(a, b)]
+        return wrap(z3.And(*ts)) if ts else True
+    if isinstance(a, SMap):
+        if not isinstance(b, SMap):
+            raise Unsupported('prefix_fold: the step function changes the shape of the state')
+        return a.eq(interp, b)
+    if isinstance(a, Opaque):
+        ta, tb = term_of_value(a), term_of_value(b)
+        if ta is None or tb is None:
+            raise Unsupported('prefix_fold: the step function changes the shape of the state')
+        return wrap(ta == tb)
+    return interp.eq(a, b)
+
+
+def m_prefix_fold(interp, args, kwargs):
+    """``prefix_fold(f, init, xs, i)`` = f(...f(f(init, xs[0]), xs[1])..., xs[i-1])  over a symbolic-length xs.
+
+    The value is the application F(i) of an uninterpreted function determined by (f, init, xs).  The
+    defining equations  F(0) = init  and  F(i) = f(F(i-1), xs[i-1])  for 0 < i <= len(xs)  are
+    instantiated at the index terms the clauses mention: the first whenever i may be 0, the second
+    where 0 < i <= len(xs) is entailed by the path condition (e.g. at `_i + 1` when an invariant is
+    re-established).  f must be a module-level function: a pure function of its two arguments."""
+    import hashlib
+    f, init, xs, i = args[:4]
+    extra = list(args[4:])          # further (fixed) arguments of the step function: f(acc, x, *extra)
+    if isinstance(xs, (SOpt, SChoice)):
+        xs = interp.resolve(xs)
+    if isinstance(i, (SOpt, SChoice)):
+        i = interp.resolve(i)
+    if not isinstance(xs, SList):
+        acc = init
+        items = list(interp.iterate(xs))
+        if isinstance(i, Sym):
+            raise Unsupported('prefix_fold: symbolic index into a concrete sequence')
+        for x in items[:i]:
+            acc = interp.call(f, [acc, x] + extra, {})
+        return acc
+    if not isinstance(f, types.FunctionType) or f.__closure__:
+        raise Unsupported('prefix_fold: the step function must be a module-level function')
+    if isinstance(i, int) and i == 0:
+        return init
+    sig, shape = _fold_sig(init)
+    for e in extra:
+        part, terms = _ghost_arg(e)
+        sig += '|%s(%s)' % (part, ','.join(z3.simplify(t).sexpr() for t in terms))
+    name = 'fold.%s.%s' % (f.__name__, hashlib.sha1(('%s:%s|%s|%s' % (f.__module__, f.__qualname__, xs.uid, sig))
+                                                    .encode()).hexdigest()[:10])
+    st = interp.st
+    t = to_z3(i)
+    value = _fold_value(interp, name, shape, t)
+    if st.no_fork:
+        return value         # inside a quantifier body: the term only
+    done = st.ghost.setdefault('@fold-unfolded', set())
+    key = (name, z3.simplify(t).sexpr())
+    if key in done:
+        return value
+    if not st.scopes:
+        done.add(key)
+    st.assume(z3.Implies(t == 0, to_z3(_fold_equal(interp, value, init))))
+    if st.must_hold(z3.And(t >= 1, t <= xs.length)):
+        prev_t = z3.simplify(t - 1)
+        if z3.is_int_value(prev_t) and prev_t.as_long() == 0:
+            prev = init
+        else:
+            prev = _fold_value(interp, name, shape, prev_t)
+            st.assume(z3.Implies(prev_t == 0, to_z3(_fold_equal(interp, prev, init))))
+        x = slist_elem(interp, xs, prev_t)
+        if isinstance(prev, SMap):
+            prev = prev.copy(interp)
+        nxt = interp.call(f, [prev, x] + extra, {})
+        st.assume(_fold_equal(interp, value, nxt))
+    return value
+
+
+# ============================================================================ recursive spec functions
+
+def _ghost_arg(a):
+    """(name part, terms) identifying an argument of a ghost function."""
+    if isinstance(a, SMap):
+        return 'map', a.terms()
+    if isinstance(a, SList):
+        if a.ident is None:
+            raise Unsupported('recursive spec function: a derived list (slice, concatenation, ...) as argument')
+        return 'list:' + a.ident[0], list(a.ident[1])
+    if isinstance(a, Opaque):
+        t = term_of_value(a)
+        if t is None:
+            if a._pv_index:
+                return 'obj:' + a._pv_uid, list(a._pv_index)
+            return 'obj:' + a._pv_uid, []
+        from .api import universe_of
+        return universe_of(a._pv_iface), [t]
+    if isinstance(a, (SOpt, SChoice)):
+        raise Unsupported('recursive spec function: optional / choice argument (resolve it first)')
+    t = term_of_value(a)
+    if t is not None:
+        return 's', [t]
+    if a is None or isinstance(a, (enum.Enum, types.FunctionType, type)):
+        return 'c:%s' % (getattr(a, '__qualname__', None) or repr(a)), []
+    raise Unsupported('recursive spec function: argument %r' % (a,))
+
+
+def call_recursive_spec(interp, fn, args, kwargs):
+    """A boolean spec function marked ``@recursive`` (contracts/common.py): its value is the application of an
+    uninterpreted predicate to the arguments; the defining equation (the body, with the recursive calls left as
+    applications) is assumed for the arguments of every call made outside quantifier bodies."""
+    if kwargs:
+        raise Unsupported('recursive spec function called with keyword arguments')
+    st = interp.st
+    args = [interp.resolve(a) if isinstance(a, (SOpt, SChoice)) else a for a in args]
+    parts = [_ghost_arg(a) for a in args]
+    terms = [t for _, ts in parts for t in ts]
+    name = 'rec.%s@%s' % (fn.__qualname__, '|'.join(p for p, _ in parts))
+    kind = getattr(fn, '_pv_recursive', 'bool')
+    rsort = {'bool': z3.BoolSort, 'str': z3.StringSort, 'int': z3.IntSort}[kind if kind in ('str', 'int') else 'bool']()
+    u = z3.Function(name, *([t.sort() for t in terms] + [rsort])) if terms else None
+    app = u(*terms) if terms else z3.Const(name, rsort)
+    active = st.ghost.setdefault('@rec-active', [])
+    done = st.ghost.setdefault('@rec-unfolded', set())
+    key = (name, tuple(z3.simplify(t).sexpr() for t in terms))
+    if fn in active or st.no_fork or key in done:
+        return wrap(app)
+    if not st.scopes:
+        done.add(key)
+    active.append(fn)
+    try:
+        body = interp.call_real_function(fn, args, {})
+        if isinstance(body, (SOpt, SChoice)):
+            body = interp.resolve(body)
+        if kind not in ('str', 'int'):
+            body = interp.truth(body)
+    finally:
+        active.pop()
+    bt = to_z3(body)
+    if bt.sort() != rsort:
+        raise Unsupported('recursive spec function %s: result is not of the declared kind' % fn.__qualname__)
+    st.assume(app == bt)
+    return wrap(app)
+
+
 def m_is_opaque(interp, args, kwargs):
-    return isinstance(args[0], Opaque)
+    x = args[0]
+    if isinstance(x, (SOpt, SChoice)):
+        x = interp.resolve(x)
+    return isinstance(x, Opaque)
 
 
 def _count_reduce_site(interp):
